@@ -405,6 +405,11 @@ def run(ctx, only=None):
         mags = [1.0, rng.choice([3e-3, 3e-4, 2e-5, 0.2, 0.05]), rng.choice([0.5, -0.499, 4e-3])]
         terms_ = [(s_, complex(mg, 0) * rng.choice([1, 1j, -1])) for s_, mg in zip(strs, mags)]
         kw = {} if tolv is None else dict(tol=tolv)
+        merged_ = {}
+        for (l_, k_), c_ in terms_:
+            merged_[l_] = merged_.get(l_, 0) + c_ * 1j ** k_
+        if any(tolv / 3 < abs(v_) < 3 * tolv for v_ in merged_.values()):
+            continue            # a merged modulus at the tolerance itself: float64 and complex64 may round to different sides
         pa_ = lambda p: cmap_of(np.asarray(p.gs), np.asarray(p.ps), np.asarray(p.cs))
         ta_ = lambda p: cmap_of(p.gs.tolist(), p.ps.tolist(), p.cs.tolist())
         probe('PauliPolynomial.reduce(tol)', lambda: (pa_(impl.poly(terms_).reduce(**kw)), len(impl.poly(terms_).reduce(**kw).cs)),
